@@ -331,7 +331,9 @@ func Run(cfg *Config) proto.End {
 	for i := 0; i < len(inboxes)+1; i++ {
 		all = append(all, <-exits)
 	}
-	// every actor has exited (visible receive above): their memory may be read now
+	// every actor has exited (visible receive above): their memory may be read now; the order of exits is the Go
+	// scheduler's business and must not show in the result
+	sort.Slice(all, func(i, j int) bool { return all[i].idx < all[j].idx })
 	var log []logEntry
 	changes := 0
 	for _, hd := range all {
@@ -347,7 +349,12 @@ func Run(cfg *Config) proto.End {
 		log = append(log, hd.log...)
 		changes += hd.changes
 	}
-	sort.Slice(log, func(i, j int) bool { return log[i].index < log[j].index })
+	sort.Slice(log, func(i, j int) bool {
+		if log[i].index != log[j].index {
+			return log[i].index < log[j].index
+		}
+		return log[i].idx > log[j].idx // the bystander (#99) is used before the operation of the same index
+	})
 	hash := uint64(14695981039346656037)
 	var descs []string
 	for _, e := range log {
